@@ -3,7 +3,9 @@
 src/twisted/web/_responses.py (``RESPONSES`` dict display over module-level integer constants) and the
 default in ``Request.setResponseCode`` (``RESPONSES.get(code, b"...")``) -> coq/C20/Gen.v
 ``responses : N -> list N``; src/twisted/web/_abnf.py ``_istoken`` (per-byte loop over a literal table) ->
-``istoken_table : list N``, which coq/C20/GenCheck.v proves equal to the model's ``is_tchar`` on every byte.  Fail-closed: anything that is not a literal table stops the translation.
+``istoken_table : list N``, which coq/C20/GenCheck.v proves equal to the model's ``is_tchar`` on every byte;
+src/twisted/web/http.py ``NO_BODY_CODES`` (tuple of integer literals / _responses constants) -> ``no_body_codes``,
+proved equal to the model's ``nobody_code``.  Fail-closed: anything that is not a literal table stops the translation.
 """
 from __future__ import annotations
 
@@ -109,6 +111,42 @@ def _tchars(src: str) -> bytes:
     raise Untranslatable("_abnf._istoken not found")
 
 
+def _int_consts(src: str) -> dict[str, int]:
+    out = {}
+    for st in ast.parse(src).body:
+        if (isinstance(st, ast.Assign) and len(st.targets) == 1 and isinstance(st.targets[0], ast.Name)
+                and isinstance(st.value, ast.Constant) and type(st.value.value) is int):
+            out[st.targets[0].id] = st.value.value
+    return out
+
+
+def _no_body_codes(http_src: str, responses_src: str) -> list[int]:
+    """http.NO_BODY_CODES must be a module-level tuple / list display of integer literals or of names of the integer
+    constants of _responses.py -> the codes.  (Request.write uses it both to skip chunked framing and to drop writes.)"""
+    consts = _int_consts(responses_src)
+    found = None
+    for st in ast.parse(http_src).body:
+        if isinstance(st, ast.Assign) and len(st.targets) == 1 and isinstance(st.targets[0], ast.Name) \
+                and st.targets[0].id == "NO_BODY_CODES":
+            if found is not None:
+                _fail(st, "NO_BODY_CODES assigned twice")
+            if not isinstance(st.value, (ast.Tuple, ast.List)):
+                _fail(st, "NO_BODY_CODES is not a tuple display")
+            found = []
+            for e in st.value.elts:
+                if isinstance(e, ast.Constant) and type(e.value) is int:
+                    found.append(e.value)
+                elif isinstance(e, ast.Name) and e.id in consts:
+                    found.append(consts[e.id])
+                else:
+                    _fail(e, "NO_BODY_CODES element is not an integer constant")
+    if found is None:
+        raise Untranslatable("no module-level NO_BODY_CODES in http.py")
+    if any(c < 0 for c in found):
+        raise Untranslatable("negative code in NO_BODY_CODES")
+    return found
+
+
 def _lst(b: bytes) -> str:
     return "[" + "; ".join(str(x) for x in b) + "]" if b else "[]"
 
@@ -119,6 +157,8 @@ def generate(repo: str, out_path: str):
         table = _table(open(os.path.join(repo, "src/twisted/web/_responses.py")).read())
         default = _default(open(os.path.join(repo, "src/twisted/web/http.py")).read())
         tchars = _tchars(open(os.path.join(repo, "src/twisted/web/_abnf.py")).read())
+        nobody = _no_body_codes(open(os.path.join(repo, "src/twisted/web/http.py")).read(),
+                                open(os.path.join(repo, "src/twisted/web/_responses.py")).read())
     except (Untranslatable, OSError, SyntaxError) as e:
         return f"c20 translator: {e}"
     lines = ["(** GENERATED by translate/c20.py from src/twisted/web/_responses.py (RESPONSES) and the default in",
@@ -131,5 +171,7 @@ def generate(repo: str, out_path: str):
     lines.append("  end.")
     lines += ["", "(** the byte table of twisted.web._abnf._istoken (a non-empty string of these bytes is a token) *)",
               f"Definition istoken_table : list N := {_lst(bytes(sorted(set(tchars))))}."]
+    lines += ["", "(** http.NO_BODY_CODES: the statuses for which Request.write neither frames nor sends a body *)",
+              "Definition no_body_codes : list N := " + ("[" + "; ".join(map(str, nobody)) + "]" if nobody else "[]") + "."]
     write_if_changed(out_path, "\n".join(lines) + "\n")
     return None
